@@ -22,6 +22,12 @@ def model_check(run, thorough):
     if not r2.violation:
         raise tlc.TLCError('vacuity guard: the model mutant (optimizer moving fixed vertices) was NOT caught by FixedFrozen')
     run.notes['model_mutant_caught'] = True
+    for spec, prop in (('Mutant2Spec', 'PosesRule'), ('Mutant3Spec', 'StructureFrozen')):
+        r3 = tlc.run('MC_GraphSLAM', 'SPECIFICATION %s\nCONSTANTS\n MaxV = 2\n Tokens = {0, 1}\n MaxIterMC = 1\nPROPERTY %s\n' % (spec, prop), timeout=600)
+        r3.cleanup()
+        if not r3.violation:
+            raise tlc.TLCError('vacuity guard: the model mutant %s was NOT caught by %s' % (spec, prop))
+    run.notes['model_mutants_caught'] = 3
 
 
 def binding_selftest(run, events):
